@@ -8,12 +8,13 @@
 //!                                                `generate_hash_key` relies on (kind = path | os | str)
 //!   args     ( argv files )                   -> parse result of the real `parse_arguments`
 //!   key      ( argv files depinfo env shlibs version filenames )
-//!                                             -> ( ok PREIMAGE-PREFIX tail_ok key_ok outputs pairs compile_args ) | ( err ) | parse result
+//!                                             -> ( ok PREIMAGE-PREFIX tail_ok key_ok outputs pairs compile_args depinfo_args ) | ( err ) | parse result
 //!            the real `Rust::parse_arguments` + `RustHasher::generate_hash_key` with a mocked rustc; the
 //!            pre-image is what the real code fed to its `Digest` (hook util::VERIF_DIGEST_TRACE)
 //!   keypair  ( reqA reqB meta )               -> ( same_key resA resB )   two `key` requests in one working directory
 //!   cwdpair  ( req subA subB meta )           -> ( same_key okA okB )   one request in two directories under one parent
 //!   sysroot  ( ((name kind digest content) ...) ) -> ( ok (digest ...) )   the real Rust::new on a scratch sysroot/lib
+//!   archive  ( ((name data) ...) bytes )    -> ( ok SPEC-PREIMAGE digest_matches )   the real hash_all_archives
 //!   digest   ( content is_archive )           -> ( digest )              helper for the case generator
 use sccache::util::{Digest, VERIF_DIGEST_TRACE};
 use sccache::verif_hooks::cache::{Cache, CacheMode, CacheWrite, Storage};
@@ -361,11 +362,14 @@ fn key_in2(case: &Sx, _scratch: &Scratch, cwd: PathBuf) -> (Sx, Option<String>) 
         _ => unreachable!(),
     };
     let creator: Creator = Arc::new(Mutex::new(MockCommandCreator { children: vec![] }));
+    let depinfo_seen: Arc<Mutex<Vec<OsString>>> = Arc::new(Mutex::new(vec![]));
     {
         let mut c = creator.lock().unwrap();
         // 1st process: `rustc <filtered args> --emit dep-info -o <file>`
+        let seen = depinfo_seen.clone();
         c.next_command_calls(move |args: &[OsString]| {
             let n = args.len();
+            *seen.lock().unwrap() = args.to_vec();
             match &depinfo {
                 Some(text) if n >= 2 && args[n - 2] == "-o" => {
                     std::fs::write(&args[n - 1], text)?;
@@ -410,6 +414,16 @@ fn key_in2(case: &Sx, _scratch: &Scratch, cwd: PathBuf) -> (Sx, Option<String>) 
     let mut outs: Vec<(String, PathBuf, bool)> =
         res.compilation.outputs().map(|o| (o.key, o.path, o.optional)).collect();
     outs.sort();
+    // the arguments of the preliminary dep-info run, without the `--emit dep-info -o <file>` sccache appends
+    let depinfo_args = {
+        let a = depinfo_seen.lock().unwrap();
+        let n = a.len();
+        if n >= 4 && a[n - 4] == "--emit" && a[n - 3] == "dep-info" && a[n - 2] == "-o" {
+            Sx::L(a[..n - 4].iter().map(sb).collect())
+        } else {
+            Sx::L(vec![Sx::sym("unexpected_tail")])
+        }
+    };
     let key = res.key.clone();
     // the command a cache miss would run (its diagnostics are what gets stored under the key)
     let compile_args = {
@@ -439,6 +453,7 @@ fn key_in2(case: &Sx, _scratch: &Scratch, cwd: PathBuf) -> (Sx, Option<String>) 
             ),
             pairs,
             compile_args,
+            depinfo_args,
         ]),
         Some(key),
     )
@@ -530,6 +545,28 @@ fn leg_sysroot(case: &Sx) -> Sx {
     Sx::L(vec![Sx::sym("ok"), Sx::L(d.chunks(64).map(|c| Sx::B(c.to_vec())).collect())])
 }
 
+/// ( ((name data) ...) archive_bytes ): the real `hash_all_archives` on the archive, against the digest of the
+/// specification pre-image (every member in archive order, name then data) -> ( ok SPEC-PREIMAGE digest_matches )
+fn leg_archive(case: &Sx) -> Sx {
+    let mut spec = vec![];
+    for m in case.arg(0).list() {
+        spec.extend_from_slice(m.arg(0).bytes());
+        spec.extend_from_slice(m.arg(1).bytes());
+    }
+    let dir = tempfile::Builder::new().prefix("vh-c05-a-").tempdir_in("/dev/shm").expect("scratch");
+    let p = dir.path().join("lib.a");
+    std::fs::write(&p, case.arg(1).bytes()).unwrap();
+    let rt = tokio::runtime::Builder::new_current_thread().enable_all().build().expect("runtime");
+    let pool = rt.handle().clone();
+    let real = match rt.block_on(sccache::util::hash_all_archives(&[p], &pool)) {
+        Ok(v) => v[0].clone(),
+        Err(_) => return Sx::L(vec![Sx::sym("err")]),
+    };
+    let mut d = Digest::new();
+    d.update(&spec);
+    Sx::L(vec![Sx::sym("ok"), Sx::B(spec), Sx::bool(d.finish() == real)])
+}
+
 fn leg_digest(case: &Sx) -> Sx {
     let content = case.arg(0).bytes();
     let is_archive = case.arg(1).as_bool();
@@ -562,6 +599,7 @@ fn main() {
             "keypair" => leg_keypair(case),
             "cwdpair" => leg_cwdpair(case),
             "sysroot" => leg_sysroot(case),
+            "archive" => leg_archive(case),
             "digest" => leg_digest(case),
             _ => Sx::L(vec![Sx::sym("unknown_leg")]),
         });
